@@ -85,6 +85,9 @@ fn durations(r: &mut Rng) -> Vec<Duration> {
 
 const STRS: &[&str] = &["foo", "foo bar", "a\tb", "Ünïcödé/ß €.mp3", "x", "dir/sub dir/file name.flac", "日本語 😀", "", " ", "/", "dir/", "Artist/Album/", "a//", "./", "trailing blank ", " leading blank", "UPPER", "0", "-1", "file.mp3/"];
 
+/// strings no request line can carry
+const UNSENDABLE: &[&str] = &["a\nb", "trailing\n", "\nleading", "dir/\nclear\n", "cr lf\r\nx"];
+
 fn parse_dec(s: &[u8]) -> Option<u128> {
     if s.is_empty() || !s.iter().all(|b| b.is_ascii_digit()) || (s.len() > 1 && s[0] == b'0') {
         return None;
@@ -323,6 +326,31 @@ pub fn all_cases(seed: u64) -> Vec<Case> {
             case!(o, "StickerSet", "sticker", vec![s("set"), s("song"), s(st), s(st2), s(st)], b, move || c::StickerSet::new(st, st2, st).command());
         }
     }
+    // ---- strings that cannot be sent (line feed inside): refused, or sent faithfully - never altered or dropped ------
+    for &st in UNSENDABLE {
+        case!(o, "LF: ClearPlaylist", "playlistclear", vec![s(st)], true, move || c::ClearPlaylist(st).command());
+        case!(o, "LF: DeletePlaylist", "rm", vec![s(st)], true, move || c::DeletePlaylist(st).command());
+        case!(o, "LF: SaveQueueAsPlaylist", "save", vec![s(st)], true, move || c::SaveQueueAsPlaylist(st).command());
+        case!(o, "LF: SubscribeToChannel", "subscribe", vec![s(st)], true, move || c::SubscribeToChannel(st).command());
+        case!(o, "LF: UnsubscribeFromChannel", "unsubscribe", vec![s(st)], true, move || c::UnsubscribeFromChannel(st).command());
+        case!(o, "LF: GetPlaylist", "listplaylistinfo", vec![s(st)], true, move || c::GetPlaylist(st).command());
+        case!(o, "LF: ListAllIn::directory", "listallinfo", vec![s(st)], true, move || c::ListAllIn::directory(st).command());
+        case!(o, "LF: Update::uri", "update", vec![s(st)], true, move || c::Update::new().uri(st).command());
+        case!(o, "LF: Rescan::uri", "rescan", vec![s(st)], true, move || c::Rescan::new().uri(st).command());
+        case!(o, "LF: Add::uri", "addid", vec![s(st)], true, move || c::Add::uri(st).command());
+        case!(o, "LF: StickerList", "sticker", vec![s("list"), s("song"), s(st)], true, move || c::StickerList::new(st).command());
+        case!(o, "LF: LoadPlaylist::name", "load", vec![s(st)], true, move || c::LoadPlaylist::name(st).command());
+        for (a, b2) in [(st, "ok"), ("ok", st)] {
+            case!(o, "LF: SendChannelMessage", "sendmessage", vec![s(a), s(b2)], true, move || c::SendChannelMessage::new(a, b2).command());
+            case!(o, "LF: RenamePlaylist", "rename", vec![s(a), s(b2)], true, move || c::RenamePlaylist::new(a, b2).command());
+            case!(o, "LF: AddToPlaylist", "playlistadd", vec![s(a), s(b2)], true, move || c::AddToPlaylist::new(a, b2).command());
+            case!(o, "LF: StickerGet", "sticker", vec![s("get"), s("song"), s(a), s(b2)], true, move || c::StickerGet::new(a, b2).command());
+            case!(o, "LF: StickerDelete", "sticker", vec![s("delete"), s("song"), s(a), s(b2)], true, move || c::StickerDelete::new(a, b2).command());
+            case!(o, "LF: StickerFind", "sticker", vec![s("find"), s("song"), s(a), s(b2)], true, move || c::StickerFind::new(a, b2).command());
+            case!(o, "LF: StickerFind::where_eq", "sticker", vec![s("find"), s("song"), s("ok"), s(a), s("="), s(b2)], true, move || c::StickerFind::new("ok", a).where_eq(b2).command());
+            case!(o, "LF: StickerSet", "sticker", vec![s("set"), s("song"), s(a), s(b2), s(a)], true, move || c::StickerSet::new(a, b2, a).command());
+        }
+    }
     // ---- booleans, enums ------------------------------------------------------------------------
     for b in [false, true] {
         let v = Int(b as u128);
@@ -501,6 +529,10 @@ impl Property for C15 {
             let built = panics::catch(|| (case.build)());
             let cmd = match built {
                 Ok(c) => c,
+                Err(_) if case.row.starts_with("LF: ") => {
+                    acc.inc("unsendable_strings_refused");
+                    continue;
+                }
                 Err(p) => {
                     acc.violation(i, None, format!("{}: command() panicked: {}", case.row, p.0), J::obj().set("row", case.row).set("expected_args", format!("{:?}", case.args)));
                     continue;
@@ -565,7 +597,7 @@ impl Property for C15 {
     fn meta(&self, _cfg: &Cfg, acc: &Acc) -> Meta {
         Meta {
             level: "exploration",
-            rule: "one expectation row per constructor/builder path of every predefined command (typed by hand from the MPD protocol reference); EXHAUSTIVE over the boundary grid {0,1,2,99,100,101,255,2^32-1,2^32,MAX-1,MAX} for every integer parameter (pairs for two-integer commands), all 9 bound-kind combinations (included/excluded/unbounded)^2 over the grid for every range parameter incl. inverted and empty ranges, all 256 volumes, every enum variant, 13 boundary durations + seeded random ones, 7 strings x 7 strings with blanks/tabs/non-ASCII, 41 tag names; the line written by Connection::send is tokenised with the MPD tokenizer port and compared semantically (range = same set of positions over usize with saturation tolerated only where +1 overflows; seconds within 0.5 ms; filter via the grammar port); non-trivial = case whose parameters contain a boundary value; distinct by (row, wire bytes)".into(),
+            rule: "one expectation row per constructor/builder path of every predefined command (typed by hand from the MPD protocol reference); EXHAUSTIVE over the boundary grid {0,1,2,99,100,101,255,2^32-1,2^32,MAX-1,MAX} for every integer parameter (pairs for two-integer commands), all 9 bound-kind combinations (included/excluded/unbounded)^2 over the grid for every range parameter incl. inverted and empty ranges, all 256 volumes, every enum variant, 13 boundary durations + seeded random ones, 7 strings x 7 strings with blanks/tabs/non-ASCII, 41 tag names; 5 strings with a line feed through every string parameter: the command must be refused (panic) or sent faithfully, never written with the string altered or left out; the line written by Connection::send is tokenised with the MPD tokenizer port and compared semantically (range = same set of positions over usize with saturation tolerated only where +1 overflows; seconds within 0.5 ms; filter via the grammar port); non-trivial = case whose parameters contain a boundary value; distinct by (row, wire bytes)".into(),
             nontrivial_set: "nontrivial",
             assumptions: vec![
                 "expectation table (harness/src/props/c15.rs) typed from the MPD protocol reference is the trusted base".into(),
